@@ -10,13 +10,17 @@ from .common import file_entries, case_from_cfg, draw_prefix, write_and_load
 
 
 # ----------------------------------------------------------------------------- dense laminar families
-def gen_family(rng: random.Random, n: int, T: int) -> List[Dict[str, int]]:
+def gen_family(rng: random.Random, n: int, T: int, u: int = 1) -> List[Dict[str, int]]:
     """Random properly nested family of n spans on the grid 0..T with dense ties: shared starts/ends, identical spans,
-    touching siblings, zero-duration events at starts / interiors / ends / touching instants."""
+    touching siblings, zero-duration events at starts / interiors / ends / touching instants.  With u > 1 positions are in ticks of
+    1/u microsecond; every span STARTS on a whole microsecond (multiple of u) and may end on any tick (integer ts, fractional dur)."""
     spans: List[List[int]] = []
 
+    def up(x: int) -> int:
+        return -(-x // u) * u
+
     def fill(lo: int, hi: int, budget: int) -> int:
-        # place siblings left to right inside [lo, hi]
+        # place siblings left to right inside [lo, hi] (ticks); lo is a multiple of u
         t = lo
         used = 0
         while used < budget and t <= hi:
@@ -25,7 +29,7 @@ def gen_family(rng: random.Random, n: int, T: int) -> List[Dict[str, int]]:
                 spans.append([t, 0])      # zero-duration event at t
                 used += 1
                 if rng.random() < 0.5:
-                    t += rng.choice([0, 0, 1])
+                    t += rng.choice([0, 0, u])
                 continue
             if t == hi:
                 break
@@ -34,29 +38,30 @@ def gen_family(rng: random.Random, n: int, T: int) -> List[Dict[str, int]]:
             used += 1
             if used < budget and rng.random() < 0.7:
                 used += fill(t, end, rng.randint(1, budget - used))
-            t = end + rng.choice([0, 0, 0, 1])
+            t = up(end) + rng.choice([0, 0, 0, u])
         return used
 
     for _ in range(50):
         del spans[:]
-        fill(0, T, n)
+        fill(0, T * u, n)
         if len(spans) >= min(n, 3):
             break
     rng.shuffle(spans)
     return [{"ts": s[0], "dur": s[1]} for s in spans]
 
 
-def family_case(rng: random.Random, n: int, T: int) -> Dict[str, Any]:
-    fam = gen_family(rng, n, T)
+def family_case(rng: random.Random, n: int, T: int, u: int = 1) -> Dict[str, Any]:
+    fam = gen_family(rng, n, T, u)
     base = rng.choice([0, 1000, 10 ** 6])
     pid = 4000
     events = []
     for k, s in enumerate(fam):
         events.append({"ph": "X", "cat": "cpu_op", "name": rng.choice(gen.HOST_OPS), "pid": pid, "tid": pid,
-                       "ts": base + s["ts"], "dur": s["dur"], "args": {"External id": k + 1}})
+                       "ts": base + s["ts"] // u, "dur": s["dur"] if u == 1 else (s["dur"] // u if s["dur"] % u == 0 else s["dur"] / u),
+                       "args": {"External id": k + 1}})
     meta = {"schemaVersion": 1, "distributedInfo": {"rank": 0}, "traceName": "fam.json"}
     rt = gen.RankTrace(rank=0, events=events, meta=meta, fmt="json", ticks=1, base=base)
-    return {"ranks": [rt.__dict__]}
+    return {"ranks": [rt.__dict__], "u": u}
 
 
 def _proj_nodes(nodes: Dict[int, Any], ids: set) -> List[Dict[str, int]]:
@@ -83,7 +88,8 @@ class C03(Prop):
     def gen_case(self, rng, k, tier):
         if k % 2 == 0:
             n = rng.randint(3, 14 if tier == "thorough" else 10)
-            case = family_case(rng, n, rng.randint(3, 9))
+            # every fifth family: whole-microsecond starts with durations in quarter microseconds (no rounding happens on such files)
+            case = family_case(rng, n, rng.randint(3, 9), u=4 if k % 10 == 8 else 1)
             case["kind"] = "family"
             return case
         cfg = gen.GenCfg(n_ranks=rng.choice([1, 1, 2]), n_steps=rng.choice([0, 1, 2]), p_launch=rng.choice([0.2, 0.5]), p_sync=rng.choice([0, 0.1]),
@@ -108,7 +114,8 @@ class C03(Prop):
               df = ta.t.get_trace(rank)
               host = df[df["stream"].eq(-1) & df["pid"].ne(0)]
               for (pid, tid), dft in host.groupby(["pid", "tid"]):
-                ev = [{"id": int(i), "ts": hta.ival(t), "dur": hta.ival(du)} for i, t, du in zip(dft["index"], dft["ts"], dft["dur"])]
+                u = int(case.get("u", 1))
+                ev = [{"id": int(i), "ts": hta.ival(float(t) * u), "dur": hta.ival(float(du) * u)} for i, t, du in zip(dft["index"], dft["ts"], dft["dur"])]
                 ids = {e["id"] for e in ev}
                 th = {"rank": int(rank), "pid": int(pid), "tid": int(tid), "events": ev, "new": [], "newErr": "", "old": [], "oldErr": "", "cg": [], "cgn": []}
                 full = df[df["pid"].eq(pid) & df["tid"].eq(tid)].copy()
